@@ -26,6 +26,6 @@ p = os.path.join(HERE, 'DESIGN.md')
 s = open(p).read()
 a = s.index('<!-- SEED-TABLE -->')
 b = s.index('<!-- /SEED-TABLE -->') + len('<!-- /SEED-TABLE -->') if '<!-- /SEED-TABLE -->' in s else a + len('<!-- SEED-TABLE -->')
-s = s[:a] + '<!-- SEED-TABLE -->\n' + '\n'.join(rows) + '\n<!-- /SEED-TABLE -->' + s[b:]
+s = s[:a] + '<!-- SEED-TABLE -->\n\n| seed | change | confirmed | own | reported by |\n|------|--------|-----------|-----|-------------|\n' + '\n'.join(rows) + '\n' + '\n<!-- /SEED-TABLE -->' + s[b:]
 open(p, 'w').write(s)
 print(len(rows), 'rows')
